@@ -59,7 +59,7 @@ static void prop_model(Tape &t, Ctx &c) {
         solve.reset(new AmgSolver(*Acrs, prm));
         li = level_info(solve->precond());
         if (cfg.coars == EMIN) emin_why = emin_degenerate(solve->precond(), 0.08);
-        if (!emin_why.empty()) { c.label("emin:degenerate"); c.desc << " | F-emin: " << emin_why; if (c.known("F-emin")) return; }
+        if (!emin_why.empty()) { c.label("emin:degenerate"); c.desc << " | emin degenerate: " << emin_why; } // fixed in /repo (a58f297): asserted like every other case
         std::tie(iters, reported) = (*solve)(f, x);
     } catch (const std::runtime_error &e) {
         VF_REQUIRE(false, "model problem not solved: exception '" << e.what() << "'");
